@@ -217,7 +217,9 @@ def _one_run(case, fi, fault, res):
         return "not_fired"
     res["faults"][fault["kind"]] = res["faults"].get(fault["kind"], 0) + 1
     # failed source must not be touched again
-    if failed_paths:
+    if failed_paths and pre_consumption:
+        # (the statement forbids retrying a source that could not be opened / whose arguments were rejected; after a
+        # failure midway through reading it only demands that the file never opens with wrong contents)
         opens = [ev for ev in PLAN.log if ev[0] == "open" and ev[1] in failed_paths]
         limit = 1 if fault["kind"] in ("open", "read") else 0
         if len(opens) > limit:
